@@ -20,7 +20,7 @@ from .common import Reporter, ncpu, repo_file_hashes, seed_from_env, write_evide
 from .equiv import ProcCtx, cex_to_json, conc_run
 from .loopsym import Bounds, ConcViolation, TooBig, Unsupported
 
-C03_KINDS = ("bounds", "view_extent", "window", "loop_range", "call_pred", "call_size", "call_shape", "alias")
+C03_KINDS = ("bounds", "view_extent", "loop_range", "call_pred", "call_size", "call_shape", "alias")
 
 
 def check_program(name, p, bounds, timeout_ms=20000):
